@@ -311,6 +311,15 @@ func replayRules(c *Ctx) {
 			a := argPaths(callCommon(in))
 			c.Check("F", fnName(fn)+"/re-encodes exactly the decoded message", len(a) == 2 && re(`^call:\(\*consensus\.WALDecoder\)\.Decode\(.*\)#0$`).MatchString(a[1]), instrPos(in), 1, describeInstr(in))
 		}
+		// the destination starts empty: os.Create, or OpenFile with O_TRUNC (the repair rewrites the file in place)
+		trunc := len(findInstrs(fn, CallTo(`^os\.Create$`, `^os\.Create\(dst\)$`))) == 1
+		for _, in := range findInstrs(fn, CallTo(`^os\.OpenFile$`, `^os\.OpenFile\(dst, `)) {
+			if k, ok := constIntVal(callCommon(in).Args[1]); ok && k&0x200 != 0 { // O_TRUNC on linux
+				trunc = true
+			}
+		}
+		c.Check("F", fnName(fn)+"/the repaired file is truncated before the valid prefix is written", trunc, fn.Pos(), 1,
+			"repairWalFile must create/truncate dst: OnStart repairs the WAL in place, so without truncation the corrupted tail survives behind the copied prefix")
 		// after a decode error nothing more is decoded or copied (the repaired file is the longest valid prefix)
 		g := G("Decode error == nil", IsNil(`^call:\(\*consensus\.WALDecoder\)\.Decode\(.*\)#1$`))
 		rm := map[edge]bool{}
